@@ -150,7 +150,7 @@ CHECKS = {
             {'name': 'Harness_C20_seq', 'pkg': 'samlidp', 'replay': 'direct', 'must_reach': ['sequential']},
             {'name': 'Harness_C20_linearizable', 'pkg': 'samlidp', 'replay': 'stress', 'must_reach': ['quiescent'], 'validate_reach': False,
              'quick': {'params': {'lin.threads': 2, 'lin.ops.0': 2, 'lin.ops.1': 1, 'lin.past': 16}},
-             'thorough': {'params': {'lin.threads': 3, 'lin.ops.0': 2, 'lin.ops.1': 1, 'lin.ops.2': 1, 'lin.past': 32}}, 'budget_s': {'quick': 600, 'thorough': 1500}},
+             'thorough': {'params': {'lin.threads': 3, 'lin.ops.0': 2, 'lin.ops.1': 1, 'lin.ops.2': 1, 'lin.past': 24}}, 'budget_s': {'quick': 600, 'thorough': 1500}, 'max_paths': 1200000},
         ],
     },
     'C18': {
@@ -289,12 +289,12 @@ _MORE_NOTES = {
     'C17': ' The step also carries the frame condition (no cookie is set other than the session cookie and the tracking cookie RelayState names), which is what makes the induction over interleaved flows valid.',
     'C18': ' One level of nested status codes is kept.',
     'C20': (' Registered descriptors are traced as heap objects (every load/store through a pointer into them). Harness_C20_linearizable runs the real MemoryStore methods as threads of one path '
-            '(engine/gosmt/conc.py: context switches where a thread is about to acquire a mutex, the next thread a decision of the path search) from four kinds of initial store (no map, empty, one entry, one entry after a sequential past of 1..16 / 1..32 other keys put and deleted again) and checks results and final contents '
+            '(engine/gosmt/conc.py: context switches where a thread is about to acquire a mutex, the next thread a decision of the path search) from four kinds of initial store (no map, empty, one entry, one entry after a sequential past of 1..16 / 1..24 other keys put and deleted again) and checks results and final contents '
             'against some linearization of the sequential map, stored values being arbitrary strings; violating schedules are also stress-replayed natively.'),
 }
 for _k, _v in _MORE_NOTES.items():
     CHECKS[_k]['level_note'] += _v
-CHECKS['C20']['level_text'] += ' Linearizability of the store is decided on the data under every lock-granularity schedule of 2 threads x (2+1) operations (quick) / 3 threads x (2+1+1) (thorough), also after a sequential past of up to 16 / 32 deletions.'
+CHECKS['C20']['level_text'] += ' Linearizability of the store is decided on the data under every lock-granularity schedule of 2 threads x (2+1) operations (quick) / 3 threads x (2+1+1) (thorough), also after a sequential past of up to 16 / 24 deletions.'
 CHECKS['C15']['level_text'] = CHECKS['C15']['level_text'].replace('the numerals are kept as tokens so the solver reasons about the integers, not digit strings', 'numerals kept as tokens of the integers in one harness and as digit runs in another')
 CHECKS['C20']['technique'] = ('symbolic execution of the go/ssa form of the real store methods and handlers yields lock/access traces; z3 decides deadlock and race freedom over a '
                               'symbolic schedule of those traces (bounded interleaving model); linearizability by symbolic execution of the real methods as threads under every '
